@@ -46,7 +46,7 @@ func (c14) Gen(rng *rand.Rand, tier string, i int) *sim.Scenario {
 			small(&c)
 			if v.Entry == "sack" {
 				c.HandshakeTimeoutMs, c.FinTimeoutMs = 1000, 100
-				sc.Listeners = append(sc.Listeners, sim.Listener{Addr: c.Target, Permitted: true})
+				sc.Listeners = append(sc.Listeners, sim.Listener{Addr: c.Target, Port: 33434, Permitted: true})
 				c.Listener = len(sc.Listeners)
 			}
 			if v.Entry == "tcp" {
@@ -75,7 +75,7 @@ func (c14) Gen(rng *rand.Rand, tier string, i int) *sim.Scenario {
 			c.Protocol, c.Method = "tcp", "prefer_sack"
 		}
 		if v.Entry == "sack" {
-			sc.Listeners = append(sc.Listeners, sim.Listener{Addr: c.Target, Permitted: true})
+			sc.Listeners = append(sc.Listeners, sim.Listener{Addr: c.Target, Port: 33434, Permitted: true})
 			c.Listener = 1
 			c.TimeoutMs = 600
 		}
